@@ -475,11 +475,38 @@ class Evaluator:
                 return
             target = self.lookup(name, env)
             for args, cs in self.ev_many(node.args, env):
-                if any(self.is_sym(a) for a in args):
-                    raise Untranslatable(f"call of {name} with symbolic argument")
+                if any(self.is_sym(a) for a in args) or any(self.is_sym(a) for a in kw.values()):
+                    yield from self.inline(name, target, args, kw, cs)
+                    continue
                 yield target(*args, **kw), cs
             return
         raise Untranslatable("call target")
+
+    def inline(self, name, target, args, kw, cs, max_depth=3):
+        """A call of a plain Python function of the repository with a symbolic argument: evaluate the callee's current AST in place
+        (a helper extracted by a refactoring must not turn the obligation inconclusive)."""
+        import types
+
+        depth = getattr(self, "depth", 0)
+        if not isinstance(target, types.FunctionType) or not (getattr(target, "__module__", "") or "").startswith("flow.record") or depth >= max_depth:
+            raise Untranslatable(f"call of {name} with symbolic argument")
+        try:
+            src = textwrap.dedent(inspect.getsource(target))
+            fn = ast.parse(src).body[0]
+            bound = inspect.signature(target).bind(*args, **kw)
+            bound.apply_defaults()
+        except (OSError, TypeError, SyntaxError, IndexError) as e:
+            raise Untranslatable(f"call of {name} with symbolic argument ({type(e).__name__})")
+        if not isinstance(fn, ast.FunctionDef) or fn.decorator_list:
+            raise Untranslatable(f"call of {name}: not a plain function")
+        sub = Evaluator(importlib.import_module(target.__module__), width=self.W, max_bits=self.max_bits, min_bits=self.min_bits)
+        sub.depth = depth + 1
+        sub.hashes = self.hashes
+        self.inlined = getattr(self, "inlined", []) + [f"{target.__module__}:{target.__qualname__}"]
+        for o in sub.run(list(fn.body), dict(bound.arguments), []):
+            if o.kind == "raise":
+                raise Untranslatable(f"inlined {name} may raise")
+            yield (o.value if o.kind == "return" else None), cs + o.pc
 
     def join_comprehension(self, sep_node, comp, env):
         if len(comp.generators) != 1 or comp.generators[0].ifs:
@@ -556,6 +583,8 @@ class Evaluator:
             terms = []
             anyc = z3.Star(z3.AllChar(z3.ReSort(z3.StringSort())))
             for a in alts:
+                if isinstance(a, (bytes, bytearray)):
+                    a = "".join(chr(c) for c in a)  # byte strings are modelled as strings over code points 0..255
                 if isinstance(a, str) and z3.is_string(r) and not z3.is_string_value(r):
                     # constant affix of a symbolic string: stay inside the regex theory (mixing PrefixOf with InRe stalls z3)
                     rx = z3.Concat(anyc, z3.Re(a)) if attr == "endswith" else z3.Concat(z3.Re(a), anyc)
